@@ -161,7 +161,7 @@ class Check:
             results = [_run_job(a) for a in args]
         else:
             ctx = mp.get_context('fork')
-            with ctx.Pool(min(self.njobs, len(args)), maxtasksperchild=8) as pool:
+            with ctx.Pool(min(self.njobs, len(args)), maxtasksperchild=1) as pool:
                 results = pool.map(_run_job, args, chunksize=1)
         for r in results:
             self.absorb(r)
